@@ -3306,6 +3306,28 @@ impl IceCandidate {
             None
         };
 
+        // Parse optional raddr/rport (RFC 8445 § 5.1). Host lines never carry
+        // them (to_sdp does not emit them for host candidates either).
+        let related_address = if typ != IceCandidateType::Host {
+            let mut rel_ip: Option<IpAddr> = None;
+            let mut rel_port: Option<u16> = None;
+            let mut i = 8;
+            while i + 1 < parts.len() {
+                match parts[i] {
+                    "raddr" => rel_ip = parts[i + 1].parse::<IpAddr>().ok(),
+                    "rport" => rel_port = parts[i + 1].parse::<u16>().ok(),
+                    _ => {}
+                }
+                i += 2;
+            }
+            match (rel_ip, rel_port) {
+                (Some(ip), Some(port)) => Some(SocketAddr::new(ip, port)),
+                _ => None,
+            }
+        } else {
+            None
+        };
+
         Ok(Self {
             foundation,
             priority,
@@ -3313,7 +3335,7 @@ impl IceCandidate {
             typ,
             transport,
             tcp_type,
-            related_address: None,
+            related_address,
             component,
         })
     }
